@@ -889,7 +889,7 @@ class SearchConstraintSearchSince(BinarySeekSearchBase):  # noqa, pylint: disabl
         if timestamp.matched:
             try:
                 return timestamp.strptime
-            except ValueError:
+            except (ValueError, OverflowError):
                 # looks like a timestamp but is not a real date/time
                 return None
 
